@@ -35,6 +35,18 @@ var sessionCallees = map[string]int{
 // index. Returns the index class ("self"/"peer"/…) or "" with a reason.
 func contextClass(v ssa.Value) (string, string) {
 	v = core.Strip(v)
+	// the context handed to a closure or a private helper: what its call site passes
+	for i := 0; i < 4; i++ {
+		p, isP := v.(*ssa.Parameter)
+		if !isP || !bindableParam(p) {
+			break
+		}
+		a := closureArg(p)
+		if a == nil {
+			break
+		}
+		v = core.Strip(a)
+	}
 	c, ok := v.(*ssa.Call)
 	if !ok {
 		return "", "not ssid‖index: " + descr(v)
